@@ -153,7 +153,7 @@ def entity_stream(chk):
 # constants end to end: source text -> compiler -> generated JavaScript -> real runtime -> delivered string
 def constant_stream(chk, table, quick):
     rng = chk.rng.fork("c12-const")
-    cps = [1, 8, 9, 10, 13, 0x1f, 0x20, 0x22, 0x27, 0x5c, 0x60, 0x7f, 0x80, 0x85, 0xa0, 0xad, 0x300, 0x2028, 0x2029, 0xfeff, 0xd7ff, 0xe000,
+    cps = [0, 0, 1, 8, 9, 10, 13, 0x1f, 0x20, 0x22, 0x27, 0x5c, 0x60, 0x7f, 0x80, 0x85, 0xa0, 0xad, 0x300, 0x2028, 0x2029, 0xfeff, 0xd7ff, 0xe000,
            0xfffd, 0xffff, 0x10000, 0x1f600, 0x10ffff, 0x24, 0x7b, 0x7d, 0x3c, 0x3e, 0x26, 0x3d, 0x2f, 0x30, 0x37, 0x41]
     multi = [n for n in sorted(table) if len(table[n]) > 1]
     single = [n for n in sorted(table) if len(table[n]) == 1]
@@ -194,6 +194,10 @@ def constant_stream(chk, table, quick):
         ("mark", lambda s: '<v mark:m="%s"/>' % s, lambda n, d: (n.get("marks") or {}).get("m"), lambda d: d),
         ("mixed", lambda s: '<v title="%s{{b}}"/>' % s, lambda n, d: (n.get("attrs") or {}).get("title"), lambda d: d + "B"),
         ("slot-name", lambda s: '<slot name="%s"/>' % s, lambda n, d: n.get("slot"), lambda d: d),
+        # template names: the definition and the reference carry the same constant, so the reference finds the definition (and no other)
+        ("template-is", lambda s: '<template name="k%s">hit</template><template name="k">miss</template><template is="k%s"/>' % (s, s),
+         lambda n, d: (n.get("children") or [{}])[0].get("text"), lambda d: "hit"),
+        ("template-is-key", lambda s: '<template is="k%s"/>z' % s, lambda n, d: n.get("key"), lambda d: "k" + d),
         ("event-handler", lambda s: '<v bind:tap="%s"/>' % s, lambda n, d: ([e[1] for e in n.get("events", []) if e[0] == "tap"] or [None])[0], lambda d: d),
     ]
     cases = []
@@ -201,6 +205,12 @@ def constant_stream(chk, table, quick):
         src, den = text()
         name, mk, _, _ = carriers[i % len(carriers)]
         cases.append((i % len(carriers), src, den))
+    # every carrier with the critical neighbourhoods: NUL before a digit (a legacy octal escape in a careless literal), a backslash before a letter,
+    # quotes, line separators, an astral character
+    for ci in range(len(carriers)):
+        for src, den in (("&#0;1", "\x001"), ("a&#0;7b", "a\x007b"), ("&#x0;0", "\x000"), ("&#0;", "\x00"), ("\\n", "\\n"), ("\\u0041", "\\u0041"), ("&#34;&#39;", "\"'"),
+                         ("&#x2028;&#x2029;", "\u2028\u2029"), ("\U0001F600&#1;2", "\U0001F600\x012"), ("&#13;&#10;", "\r\n")):
+            cases.append((ci, src, den))
     from . import render
     groups = render.compile_templates([[["p", carriers[ci][1](src)]] for ci, src, den in cases])
     reqs, meta = [], []
@@ -208,7 +218,7 @@ def constant_stream(chk, table, quick):
         if "panic" in g or not isinstance(g.get("gen_groups"), str):
             chk.violation("input", "compiler failed on a constant-carrying template", template=carriers[ci][1](src))
             continue
-        reqs.append({"op": "render", "gen_groups": g["gen_groups"], "path": "p", "steps": [{"create": {"b": "B"}}]})
+        reqs.append({"op": "render", "gen_groups": g["gen_groups"], "path": "p", "steps": [{"create": {"b": "B"}}], "flatten": False})
         meta.append(k)
     outs = core.run_node(reqs)
     nb = 0
